@@ -504,6 +504,23 @@ pub open spec fn reps_ok(t: &CosetTable, m: Map<usize, FreeWord>) -> bool {
         && forall|j: int| 0 <= j < m[k]@.len() ==> t.gen_ok(#[trigger] m[k]@[j] as int)
 }
 
+// a set of rows that contains row 0 and is closed under every generator contains every row some word reaches from row 0
+proof fn lemma_closed_keys(t: &CosetTable, keys: Set<usize>, w: Seq<isize>)
+    requires keys.contains(0), gens_ok(t, w), trace(t, 0, w).is_some(),
+        forall|k: usize, h: int| #![trigger keys.contains(k), t.act(k as int, h)] keys.contains(k) && t.gen_ok(h) && t.act(k as int, h).is_some() ==> keys.contains(t.act(k as int, h).unwrap()),
+    ensures keys.contains(trace(t, 0, w).unwrap())
+    decreases w.len()
+{
+    if w.len() > 0 {
+        let w0 = w.drop_last();
+        assert(gens_ok(t, w0)) by { assert forall|j: int| 0 <= j < w0.len() implies t.gen_ok(#[trigger] w0[j] as int) by { assert(w0[j] == w[j]); } }
+        lemma_closed_keys(t, keys, w0);
+        let x = trace(t, 0, w0).unwrap();
+        assert(t.gen_ok(w.last() as int)) by { assert(w.last() == w[w.len() - 1]); }
+        assert(keys.contains(x) && t.act(x as int, w.last() as int).is_some());
+    }
+}
+
 //@ begin src/fpgroups/cosets.rs :: - :: fn coset_representative
 //@ rw R16 /-> BTreeMap<usize, FreeWord>/-> (result: BTreeMap<usize, FreeWord>)/
 //@ rw R13 /result\[&i\]\.clone\(\)/result.get(&i).unwrap().clone()/
@@ -513,12 +530,15 @@ pub open spec fn reps_ok(t: &CosetTable, m: Map<usize, FreeWord>) -> bool {
 pub fn coset_representative(table: &CosetTable) -> (result: BTreeMap<usize, FreeWord>)
     requires valid(table)
     // C11: "The coset representatives map each row to a word that, traced from row 0, ends in that row."
-    ensures reps_ok(table, result@), result@.contains_key(0)
+    ensures reps_ok(table, result@), result@.contains_key(0),
+        // ... EACH row: for a transitive table (what coset_table returns) no row is left without a representative
+        transitive(table) ==> forall|r: int| is_row(table, r) ==> result@.contains_key(r as usize),
 {
     let mut queue = VecDeque::from([0]);
     let mut result = BTreeMap::from([(0, FreeWord::empty())]);
     proof { assert(reps_ok(table, result@)); }
     let ghost mut qg: Seq<usize> = queue@;
+    let ghost mut done: Set<usize> = Set::empty();     // rows whose neighbours have all been given a word
 
     while let Some(i) = queue.pop_front()
         invariant
@@ -527,9 +547,17 @@ pub fn coset_representative(table: &CosetTable) -> (result: BTreeMap<usize, Free
             reps_ok(table, result@),
             result@.contains_key(0),
             forall|k: int| 0 <= k < queue@.len() ==> result@.contains_key(#[trigger] queue@[k]),
+            // every row with a word is finished or waiting, and the finished ones have passed a word on to every neighbour
+            forall|k: usize| #[trigger] result@.contains_key(k) ==> done.contains(k) || queue@.contains(k),
+            forall|k: usize, h: int| #![trigger done.contains(k), table.act(k as int, h)] done.contains(k) && table.gen_ok(h) && table.act(k as int, h).is_some()
+                ==> result@.contains_key(table.act(k as int, h).unwrap()),
+        ensures queue@.len() == 0,
     {
         proof { assert(qg[0] == i); assert(result@.contains_key(qg[0]));
-                assert forall|k: int| 0 <= k < queue@.len() implies result@.contains_key(#[trigger] queue@[k]) by { assert(queue@[k] == qg[k + 1]); } }
+                assert forall|k: int| 0 <= k < queue@.len() implies result@.contains_key(#[trigger] queue@[k]) by { assert(queue@[k] == qg[k + 1]); }
+                assert forall|k: usize| #[trigger] result@.contains_key(k) && k != i implies done.contains(k) || queue@.contains(k) by {
+                    if !done.contains(k) { let j = choose|j: int| 0 <= j < qg.len() && qg[j] == k; assert(queue@[j - 1] == k); }
+                } }
         let w = result.get(&i).unwrap().clone();
 
         for g in it: table.all_gens()
@@ -540,20 +568,56 @@ pub fn coset_representative(table: &CosetTable) -> (result: BTreeMap<usize, Free
                 w@ == result@[i]@,
                 forall|k: int| 0 <= k < queue@.len() ==> result@.contains_key(#[trigger] queue@[k]),
                 forall|k: int| 0 <= k < it.seq().len() ==> table.gen_ok(#[trigger] it.seq()[k] as int),
+                it.seq().len() == 2 * table.nr_gens,
+                forall|k: int| 0 <= k < it.seq().len() ==> gen_index(table, #[trigger] it.seq()[k] as int) == k,
+                forall|k: usize| #[trigger] result@.contains_key(k) && k != i ==> done.contains(k) || queue@.contains(k),
+                forall|k: usize, h: int| #![trigger done.contains(k), table.act(k as int, h)] done.contains(k) && table.gen_ok(h) && table.act(k as int, h).is_some()
+                    ==> result@.contains_key(table.act(k as int, h).unwrap()),
+                // the generators already handled at row i
+                forall|h: int| table.gen_ok(h) && gen_index(table, h) < it.index() && (#[trigger] table.act(i as int, h)).is_some()
+                    ==> result@.contains_key(table.act(i as int, h).unwrap()),
         {
-            proof { assert(table.gen_ok(it.seq()[it.index() as int] as int)); }
+            proof { assert(table.gen_ok(it.seq()[it.index() as int] as int)); assert(gen_index(table, it.seq()[it.index() as int] as int) == it.index()); }
+            let ghost q0 = queue@;
             if let Some(k) = table.get(i, g) {
                 if !result.contains_key(&k) {
                     proof { lemma_trace_step(table, w@, g, i as int); }
                     let wk = Mul::mul(&w, g);
                     result.insert(k, wk);
                     queue.push_back(k);
+                    proof {
+                        assert(queue@[q0.len() as int] == k);
+                        assert forall|x: usize| q0.contains(x) implies queue@.contains(x) by { let j = choose|j: int| 0 <= j < q0.len() && q0[j] == x; assert(queue@[j] == x); }
+                    }
+                }
+            }
+            proof {
+                assert forall|h: int| table.gen_ok(h) && gen_index(table, h) < it.index() + 1 && (#[trigger] table.act(i as int, h)).is_some()
+                    implies result@.contains_key(table.act(i as int, h).unwrap()) by {
+                    if gen_index(table, h) == it.index() { assert(h == g as int); }
                 }
             }
         }
-        proof { qg = queue@; }
+        proof {
+            let d0 = done;
+            done = done.insert(i);
+            assert forall|k: usize, h: int| #![trigger done.contains(k), table.act(k as int, h)] done.contains(k) && table.gen_ok(h) && table.act(k as int, h).is_some()
+                implies result@.contains_key(table.act(k as int, h).unwrap()) by {
+                if k == i { assert(0 <= gen_index(table, h) < 2 * table.nr_gens); } else { assert(d0.contains(k)); }
+            }
+            qg = queue@;
+        }
     }
 
+    proof {
+        if transitive(table) {
+            assert forall|k: usize| #[trigger] result@.contains_key(k) implies done.contains(k) by { assert(!queue@.contains(k)); }
+            assert forall|r: int| is_row(table, r) implies result@.contains_key(r as usize) by {
+                let w = choose|w: Seq<isize>| gens_ok(table, w) && #[trigger] trace(table, 0, w) == Some(r as usize);
+                lemma_closed_keys(table, result@.dom(), w);
+            }
+        }
+    }
     result
 }
 //@ end
@@ -3571,6 +3635,16 @@ fn witness_table_then_representatives(relators: &Vec<FreeWord>, subs: &Vec<FreeW
     let t = coset_table(3, relators, subs);
     let reps = coset_representative(&t);
     assert(reps@.contains_key(0));
+    // "map EACH row to a word": coset_table ensures transitivity, so no row is left out
+    assert(forall|r: int| is_row(&t, r) ==> reps@.contains_key(r as usize));
+}
+
+// the totality clause is not vacuous: transitive tables with several rows exist as far as the solver knows
+fn canary_representatives_total(t: &CosetTable)
+    requires valid(t), transitive(t), t.table@.len() == 3
+    ensures false
+{
+    let reps = coset_representative(t);
 }
 
 proof fn canary_kinv_is_satisfiable(t: &CosetTable)
